@@ -11,7 +11,7 @@ pub assume_specification [isize::abs] (x: isize) -> (r: isize)
 
 //@ item consume file=src/core/iter.rs block="impl<T: ?Sized> IteratorExt for T where T: Iterator," fn=consume
 //@ rw R2 + re⟦\bself\b⟧ => ⟦this⟧
-//@ rw R4 1 ⟦(&mut this).peekable()⟧ => ⟦&mut this⟧
+//@ rw R4 * ⟦(&mut this).peekable()⟧ => ⟦&mut this⟧
 //@ loop 1
             invariant true
             ensures iter.rest().len() == 0
@@ -23,7 +23,7 @@ pub assume_specification [isize::abs] (x: isize) -> (r: isize)
 
 //@ item drop file=src/core/iter.rs block="impl<T: ?Sized> IteratorExt for T where T: Iterator," fn=drop
 //@ rw R2 + re⟦\bself\b⟧ => ⟦this⟧
-//@ rw R4 1 ⟦(&mut this).rev().nth(⟧ => ⟦this.rev_nth(⟧
+//@ rw R4 * ⟦(&mut this).rev().nth(⟧ => ⟦this.rev_nth(⟧
     pub fn drop<T>(mut this: DeIter<T>, n: isize) -> (r: DeIter<T>)
         ensures r.rest() =~= spec_drop(this.rest(), n as int),     //@ clause drop.post
 //@ body
@@ -58,8 +58,8 @@ pub assume_specification [isize::abs] (x: isize) -> (r: isize)
 
 //@ item slice file=src/core/iter.rs block="impl<T: ?Sized> IteratorExt for T where T: Iterator," fn=slice
 //@ rw R2 + re⟦\bself\b⟧ => ⟦this⟧
-//@ rw R4 1 ⟦(this.clone()).count()⟧ => ⟦this.clone_count()⟧
-//@ rw R4 1 ⟦(&mut this).rev().nth(⟧ => ⟦this.rev_nth(⟧
+//@ rw R4 * ⟦(this.clone()).count()⟧ => ⟦this.clone_count()⟧
+//@ rw R4 * ⟦(&mut this).rev().nth(⟧ => ⟦this.rev_nth(⟧
     pub fn slice<T>(mut this: DeIter<T>, left: isize, right: isize) -> (r: DeIter<T>)
         requires this.rest().len() <= isize::MAX,        // ASSUMED[len-fits-isize]: the iterator yields at most isize::MAX items (true of every in-memory collection)
         ensures left >= -(this.rest().len() as int) ==> r.rest() =~= spec_slice(this.rest(), left as int, right as int),     //@ clause slice.post
